@@ -29,8 +29,8 @@ def gen(rng, tier):
     if not quick:
         ds += G.all_dfas(4, 'a') + rng.sample(G.all_dfas(3, 'ab'), 2000)
     for _ in range(250 if quick else 4000):
-        sigma = rng.choice(['a', 'ab', 'abc', 'ab'])
-        d = G.random_dfa(rng, rng.randint(1, 7), sigma, pfinal=rng.choice([0.2, 0.5]))
+        sigma = rng.choice(['a', 'ab', 'abc', 'ab', 'abcd', ''])
+        d = G.random_dfa(rng, rng.randint(1, 7) if sigma else rng.randint(1, 3), sigma, pfinal=rng.choice([0.2, 0.5]))
         ds.append(d)
     # DFAs with many equivalent states: blow up a small DFA
     for _ in range(80 if quick else 1000):
